@@ -5,7 +5,7 @@ import RaftProofs.ProtoC
 
 Proved here on the abstract protocol P, for **every history** (any number of nodes, any interleaving,
 message loss / duplication / reordering, crash at any point and restart from the durable image,
-leader changes, snapshots) under a fixed (possibly joint) voter configuration with at least one voter:
+leader changes, snapshots, **membership changes** — the voter configuration is part of the events):
 
 * in every reachable state, any two nodes agree on every entry both report committed
   (`C01_state_machine_safety`), also against what any node holds durably and against every released
@@ -29,40 +29,45 @@ by event, to be a history of P (each commit advance, append, vote, snapshot, per
 real nodes must be accepted by `applyEvent`, and the P state must equal the node's view after every
 call), and the monitors compare everything handed to the application across nodes.
 
-Histories with membership changes: covered by trace validation and the monitors only
-(`C01_full_statement` is kept below, unproved).
+Membership changes are covered: the voter configuration in force is part of every `win`,
+`commitLeader` and read event and may change along the history.  P does not derive a node's
+configuration from its log (component theorems C09/C12 do); its guards demand that the
+configurations of a leader commit and of an election that have to agree are *adjacent* (`adjOk`: equal,
+or one simple / joint membership-change step apart — a decidable check proved to imply that their
+deciding quorums meet, `adj_intersect`) and otherwise that the agreement is exhibited directly when
+the later of the two events happens.  The implementation has to meet these demands on every trace.
 -/
 namespace RaftProps.C01
 open RaftModel.P
 
 /-- **State Machine Safety** in every reachable state: two nodes hold the same entry at every index
 both report committed -/
-theorem C01_state_machine_safety (c0 : Cfg) (hne : c0.incoming ≠ [] ∨ c0.outgoing ≠ []) (s : PSys)
-    (hr : ReachC c0 s) (i j k : Nat) (hk : 0 < k) (hi : k ≤ (s.nodes i).commit) (hj : k ≤ (s.nodes j).commit) :
+theorem C01_state_machine_safety (s : PSys)
+    (hr : Reach s) (i j k : Nat) (hk : 0 < k) (hi : k ≤ (s.nodes i).commit) (hj : k ≤ (s.nodes j).commit) :
     (s.nodes i).log[k - 1]? = (s.nodes j).log[k - 1]? := by
-  have I := invAll_reach c0 hne s hr
+  have I := invAll_reachR s hr
   exact getElem?_of_take_eq (sm_safety I.b I.c i j k hi hj) (by omega)
 
 /-- the committed prefixes of any two nodes are comparable: they agree up to the smaller commit index -/
-theorem C01_committed_prefixes_agree (c0 : Cfg) (hne : c0.incoming ≠ [] ∨ c0.outgoing ≠ []) (s : PSys)
-    (hr : ReachC c0 s) (i j : Nat) :
+theorem C01_committed_prefixes_agree (s : PSys)
+    (hr : Reach s) (i j : Nat) :
     (s.nodes i).log.take (min (s.nodes i).commit (s.nodes j).commit) =
       (s.nodes j).log.take (min (s.nodes i).commit (s.nodes j).commit) := by
-  have I := invAll_reach c0 hne s hr
+  have I := invAll_reachR s hr
   exact sm_safety I.b I.c i j _ (Nat.min_le_left _ _) (Nat.min_le_right _ _)
 
 /-- what a node would restart from agrees with what any node reports committed -/
-theorem C01_agree_durable (c0 : Cfg) (hne : c0.incoming ≠ [] ∨ c0.outgoing ≠ []) (s : PSys)
-    (hr : ReachC c0 s) (i j k : Nat) (hi : k ≤ (s.nodes i).commit) (hj : k ≤ (s.nodes j).dcommit) :
+theorem C01_agree_durable (s : PSys)
+    (hr : Reach s) (i j k : Nat) (hi : k ≤ (s.nodes i).commit) (hj : k ≤ (s.nodes j).dcommit) :
     (s.nodes i).log.take k = (s.nodes j).dlog.take k := by
-  have I := invAll_reach c0 hne s hr
+  have I := invAll_reachR s hr
   exact sm_safety_durable I.b I.c i j k hi hj
 
 /-- a released snapshot is exactly the committed prefix of every node that has committed that far -/
-theorem C01_snapshot_agrees (c0 : Cfg) (hne : c0.incoming ≠ [] ∨ c0.outgoing ≠ []) (s : PSys)
-    (hr : ReachC c0 s) (m : Snap) (hm : m ∈ s.snaps) (i : Nat) (hi : m.idx ≤ (s.nodes i).commit) :
+theorem C01_snapshot_agrees (s : PSys)
+    (hr : Reach s) (m : Snap) (hm : m ∈ s.snaps) (i : Nat) (hi : m.idx ≤ (s.nodes i).commit) :
     (s.nodes i).log.take m.idx = m.pre := by
-  have I := invAll_reach c0 hne s hr
+  have I := invAll_reachR s hr
   exact snapshot_committed I.b I.c m hm i hi
 
 /-! ### across time -/
@@ -74,19 +79,19 @@ def Reports (s : PSys) (k : Nat) (e : LEntry) : Prop :=
            (∃ m ∈ s.snaps, k ≤ m.idx ∧ m.pre[k - 1]? = some e))
 
 /-- continuations of a history -/
-inductive StepsC (c0 : Cfg) : PSys → PSys → Prop where
-  | refl (s : PSys) : StepsC c0 s s
-  | tail {s s' s'' : PSys} (e : Event) : StepsC c0 s s' → e.cfgOk c0 → applyEvent s' e = .ok s'' → StepsC c0 s s''
+inductive Steps : PSys → PSys → Prop where
+  | refl (s : PSys) : Steps s s
+  | tail {s s' s'' : PSys} (e : Event) : Steps s s' → applyEvent s' e = .ok s'' → Steps s s''
 
-theorem reach_of_steps {c0 : Cfg} {s s' : PSys} (hr : ReachC c0 s) (h : StepsC c0 s s') : ReachC c0 s' := by
+theorem reach_of_steps {s s' : PSys} (hr : Reach s) (h : Steps s s') : Reach s' := by
   induction h with
   | refl => exact hr
-  | tail e _ hc hs ih => exact .step e ih hc hs
+  | tail e _ hs ih => exact .step e ih hs
 
 /-- every reported entry is an entry of the committed log -/
-theorem C01_reported_is_committed (c0 : Cfg) (hne : c0.incoming ≠ [] ∨ c0.outgoing ≠ []) (s : PSys)
-    (hr : ReachC c0 s) (k : Nat) (e : LEntry) (h : Reports s k e) : Committed s k e := by
-  have I := invAll_reach c0 hne s hr
+theorem C01_reported_is_committed (s : PSys)
+    (hr : Reach s) (k : Nat) (e : LEntry) (h : Reports s k e) : Committed s k e := by
+  have I := invAll_reachR s hr
   obtain ⟨hk, h⟩ := h
   rcases h with ⟨i, hi, he⟩ | ⟨i, hi, he⟩ | ⟨m, hm, hi, he⟩
   · obtain ⟨x, hx, hc⟩ := reported_is_committed I.c i k hk hi
@@ -97,36 +102,54 @@ theorem C01_reported_is_committed (c0 : Cfg) (hne : c0.incoming ≠ [] ∨ c0.ou
     rw [hx] at he; injection he with he; subst he; exact hc
 
 /-- the committed log holds at most one entry per index -/
-theorem C01_committed_unique (c0 : Cfg) (hne : c0.incoming ≠ [] ∨ c0.outgoing ≠ []) (s : PSys)
-    (hr : ReachC c0 s) (k : Nat) (e e' : LEntry) (h : Committed s k e) (h' : Committed s k e') : e = e' := by
-  have I := invAll_reach c0 hne s hr
+theorem C01_committed_unique (s : PSys)
+    (hr : Reach s) (k : Nat) (e e' : LEntry) (h : Committed s k e) (h' : Committed s k e') : e = e' := by
+  have I := invAll_reachR s hr
   exact committed_unique I.b I.c h h'
 
 /-- a committed entry stays committed along every continuation of the history -/
-theorem C01_committed_stable (c0 : Cfg) (hne : c0.incoming ≠ [] ∨ c0.outgoing ≠ []) (s s' : PSys)
-    (hr : ReachC c0 s) (hs : StepsC c0 s s') (k : Nat) (e : LEntry) (h : Committed s k e) : Committed s' k e := by
+theorem C01_committed_stable (s s' : PSys)
+    (hr : Reach s) (hs : Steps s s') (k : Nat) (e : LEntry) (h : Committed s k e) : Committed s' k e := by
   induction hs with
   | refl => exact h
-  | tail ev hst hc hstep ih =>
+  | tail ev hst hstep ih =>
     rename_i s1 s2
     have hr1 := reach_of_steps hr hst
-    have I := invAll_reach c0 hne s1 hr1
-    exact committed_step I.c (grow_step c0 hne s1 s2 ev hc I.v I.l hstep) ev hstep ih
+    have I := invAll_reachR s1 hr1
+    exact committed_step I.c (grow_step s1 s2 ev I.v I.l hstep) ev hstep ih
 
 /-- **No index is ever reported with two different entries**: if anybody reports `e` at index `k` at
 some point of a history and anybody reports `e'` at `k` at the same or any later point, then `e = e'` -/
-theorem C01_never_reports_differently (c0 : Cfg) (hne : c0.incoming ≠ [] ∨ c0.outgoing ≠ []) (s s' : PSys)
-    (hr : ReachC c0 s) (hs : StepsC c0 s s') (k : Nat) (e e' : LEntry)
+theorem C01_never_reports_differently (s s' : PSys)
+    (hr : Reach s) (hs : Steps s s') (k : Nat) (e e' : LEntry)
     (h : Reports s k e) (h' : Reports s' k e') : e = e' := by
   have hr' := reach_of_steps hr hs
-  have c1 := C01_committed_stable c0 hne s s' hr hs k e (C01_reported_is_committed c0 hne s hr k e h)
-  have c2 := C01_reported_is_committed c0 hne s' hr' k e' h'
-  exact C01_committed_unique c0 hne s' hr' k e e' c1 c2
+  have c1 := C01_committed_stable s s' hr hs k e (C01_reported_is_committed s hr k e h)
+  have c2 := C01_reported_is_committed s' hr' k e' h'
+  exact C01_committed_unique s' hr' k e e' c1 c2
 
-/-- the statement with the voter configuration changing along the history — not proved -/
-def C01_full_statement : Prop :=
-  ∀ (s s' : PSys), Reach s → (∃ es, run s es = .ok s') → ∀ k e e',
-    Reports s k e → Reports s' k e' → e = e'
+theorem steps_head {s s1 s' : PSys} (e : Event) (h1 : applyEvent s e = .ok s1) (h : Steps s1 s') : Steps s s' := by
+  induction h with
+  | refl => exact .tail e (.refl s) h1
+  | tail e' _ hs ih => exact .tail e' ih hs
+
+theorem steps_of_run : ∀ (es : List Event) (s s' : PSys), run s es = .ok s' → Steps s s' := by
+  intro es
+  induction es with
+  | nil => intro s s' h; simp only [run] at h; cases h; exact .refl s
+  | cons e es ih =>
+    intro s s' h
+    simp only [run] at h
+    split at h
+    · rename_i s1 h1; exact steps_head e h1 (ih s1 s' h)
+    · cases h
+
+/-- the statement of the earlier rounds (`C01_full_statement`: the voter configuration changing along
+the history) is now a theorem -/
+theorem C01_full : ∀ (s s' : PSys), Reach s → (∃ es, run s es = .ok s') → ∀ k e e',
+    Reports s k e → Reports s' k e' → e = e' := by
+  intro s s' hr ⟨es, hes⟩ k e e' h h'
+  exact C01_never_reports_differently s s' hr (steps_of_run es s s' hes) k e e' h h'
 
 /-! ### non-vacuity: in a three-voter history the leader and a follower both commit entry 1, a third
 node installs a snapshot of it, and all three report the same entry -/
